@@ -6,10 +6,11 @@ CONSTANTS
   MaxV = 6
   Programs <- IncPrograms
   SubKinds <- KindsInc
-  InitStores <- CollStores
+  InitStores <- IncStores
   PublishAfterUnlock = FALSE
   CreatedRevalidated = TRUE
   DeleteHoldsLock = TRUE
+  DeleteRechecks = TRUE
   Equiv = "none"
   SubSer = FALSE
   MayCancel = FALSE
